@@ -193,7 +193,8 @@ def run_workload(arg):
             "mutating": sum(1 for x in log if fsmon.is_mutating(x))}
 
 
-RECOVERIES = ("calls", "calls-expires_after", "shelve", "reduce_size-then-calls", "clear-then-calls", "load-every-output")
+RECOVERIES = ("calls", "calls-expires_after", "shelve", "reduce_size-then-calls", "clear-then-calls", "load-every-output",
+              "calls-then-source-change")
 
 
 def recover(arg):
@@ -259,6 +260,20 @@ def recover(arg):
             out.append(["f-again", a, "ok" if v == fval(version, a) else "wrong:%r" % (v,)])
         except Exception as e:  # noqa
             out.append(["f-again", a, "raises:%s: %s" % (type(e).__name__, str(e)[:120])])
+    if how == "calls-then-source-change":
+        # life goes on after the recovery: the source changes once more and a fresh process must see only values of
+        # the new source (a recovery must not leave something behind that defeats the next wipe)
+        mods2 = work + "-mods9"
+        mod9 = load_module(write_module(mods2, 9))
+        M._FUNCTION_HASHES.clear()
+        cf9 = joblib.Memory(work, verbose=0, **kw).cache(mod9.f)
+        for a in (0, 1, 2):
+            try:
+                v = cf9(a)
+                out.append(["f-new-source", a, "ok" if v == fval(9, a) else "wrong:%r" % (v,)])
+            except Exception as e:  # noqa
+                out.append(["f-new-source", a, "raises:%s: %s" % (type(e).__name__, str(e)[:120])])
+        shutil.rmtree(mods2, ignore_errors=True)
     return out
 
 
